@@ -789,6 +789,11 @@ func (vals *ValidatorSet) VerifyCommitLightTrusting(chainID string, commit *Comm
 	if trustLevel.Denominator == 0 {
 		return errors.New("trustLevel has zero Denominator")
 	}
+	// the fraction is used in int64 arithmetic below: a numerator or denominator that
+	// does not fit becomes negative there and the power needed with it
+	if trustLevel.Numerator > math.MaxInt64 || trustLevel.Denominator > math.MaxInt64 {
+		return errors.New("trustLevel numerator or denominator is too large")
+	}
 
 	var (
 		talliedVotingPower int64
